@@ -64,13 +64,22 @@ fn dump_bodies<'tcx>(cx: &mut ctx::Cx<'tcx>) -> J {
     let tcx = cx.tcx;
     let mut out = vec![];
     let owners: Vec<_> = tcx.hir_body_owners().collect();
+    // First pass: build and clone every MIR body before any other query runs. Later queries (instance
+    // resolution, auto-trait checks on coroutines, const evaluation) may steal `mir_built` of other bodies.
+    let mut mirs = std::collections::HashMap::new();
+    for def in &owners {
+        let steal = tcx.mir_built(*def);
+        if !steal.is_stolen() {
+            mirs.insert(*def, steal.borrow().clone());
+        }
+    }
     for def in owners {
         let kind = tcx.def_kind(def);
         let path = cx.path_of(def.to_def_id());
         let is_closure = tcx.is_closure_like(def.to_def_id());
         // HIR: closures are rendered inline in their parent, so only non-closure owners get a HIR tree.
         let hir = if is_closure { J::Null } else { hirdump::dump_body(cx, def) };
-        let mir = mirdump::dump_mir(cx, def);
+        let mir = match mirs.get(&def) { Some(b) => mirdump::dump_mir(cx, def, b), None => J::Null };
         let span = cx.span_str(tcx.def_span(def));
         let parent = if is_closure {
             J::s(cx.path_of(tcx.local_parent(def).to_def_id()))
